@@ -111,8 +111,23 @@ Expected(c, lf) ==
   ELSE IF lf.d = <<>> /\ lf.res.kind = "err" /\ lf.res.err = "failrate" THEN [kind |-> "err", err |-> "failrate"]
   ELSE Replay(lf.d, 1, c.maxTrials)
 
+\* a call made concurrently with others (C14): only what it returned can be judged
+ConcWhys(c, lf) ==
+  LET res == lf.res
+      chars == TokChars(res.toks)
+  IN
+  <<IF res.kind = "panic" THEN "P:C14:call-panicked-under-concurrency" ELSE "ok",
+    IF res.kind = "ok" /\ ~(Len(res.toks) = info.r.len /\ \A i \in DOMAIN res.toks : Len(res.toks[i].v) = 1 /\ res.toks[i].t = 1 /\ IsValidI(chars))
+      THEN "P:C14:password-returned-under-concurrency-violates-its-recipe" ELSE "ok",
+    IF res.kind = "ok" /\ ~SameFloat(res.ent, c.ent) THEN "P:C14:password-returned-under-concurrency-does-not-carry-the-recipes-entropy" ELSE "ok",
+    IF res.kind = "entropy" /\ ~SameFloat(res.ent, c.ent) THEN "P:C14:Entropy()-under-concurrency-differs-from-the-recipes-entropy" ELSE "ok",
+    IF res.kind = "alphabet" /\ res.str # c.alpha THEN "P:C14:Alphabet()-under-concurrency-differs" ELSE "ok",
+    IF res.kind = "err" /\ info.r.len >= 1 /\ info.A >= 1 /\ ~info.refAllowed /\ res.err # "exhausted" THEN "P:C14:call-failed-under-concurrency" ELSE "ok"
+  >>
+
 LeafWhys(c, lf) ==
   IF lf.res.kind = "cut" THEN <<"ok">> ELSE
+  IF lf.conc = 1 THEN ConcWhys(c, lf) ELSE
   LET r == info.r
       res == lf.res
       chars == TokChars(res.toks)
